@@ -724,13 +724,16 @@ func (a *Assembler) AssembleWithContext(netFlow gopacket.Flow, t *layers.TCP, ac
 		}
 	}
 
+	// a packet that goes to the queue is not consumed now, even if queueing it
+	// pushes older data out because a buffer limit is hit
+	queued := action.queue
 	action = a.handleBytes(bytes, seq, half, t.SYN, t.RST || t.FIN, action, ac)
 	if len(a.ret) > 0 {
 		action.nextSeq = a.sendToConnection(conn, half, ac)
 	}
 	if action.nextSeq != invalidSequence {
 		half.nextSeq = action.nextSeq
-		if t.FIN {
+		if t.FIN && !queued {
 			half.nextSeq = half.nextSeq.Add(1)
 		}
 	}
